@@ -28,7 +28,7 @@ open Opcua Opcua.Limits
     copy / default for zero / minimum) and regenerated on every run.  A change of `Handshake` or
     `srvhandshake` changes them, and this theorem — on which the reading of every other theorem
     about `negotiate` rests — no longer holds. -/
-theorem C06_negotiate_generated (hello ack : Ack) :
+theorem C06_negotiate_generated (hello ack : Ack) (h0 : hello.rcv ≠ 0) :
     negotiate hello ack =
       { client := ⟨Gen.hsClientRcv hello.rcv hello.snd hello.maxMsg hello.maxChunks ack.rcv ack.snd ack.maxMsg ack.maxChunks,
                    Gen.hsClientSnd hello.rcv hello.snd hello.maxMsg hello.maxChunks ack.rcv ack.snd ack.maxMsg ack.maxChunks,
@@ -38,13 +38,35 @@ theorem C06_negotiate_generated (hello ack : Ack) :
                    Gen.hsServerSnd hello.rcv hello.snd hello.maxMsg hello.maxChunks ack.rcv ack.snd ack.maxMsg ack.maxChunks,
                    Gen.hsServerMaxMsg hello.rcv hello.snd hello.maxMsg hello.maxChunks ack.rcv ack.snd ack.maxMsg ack.maxChunks,
                    Gen.hsServerMaxChunks hello.rcv hello.snd hello.maxMsg hello.maxChunks ack.rcv ack.snd ack.maxMsg ack.maxChunks⟩ } := by
-  simp [negotiate, clientAdopt, Gen.hsClientRcv, Gen.hsClientSnd, Gen.hsClientMaxMsg, Gen.hsClientMaxChunks,
+  have hr : (if hello.rcv ≠ 0 ∧ ack.rcv > hello.rcv then hello.rcv else ack.rcv) = min hello.rcv ack.rcv := by
+    split <;> omega
+  simp [negotiate, clientAdopt, hr, Gen.hsClientRcv, Gen.hsClientSnd, Gen.hsClientMaxMsg, Gen.hsClientMaxChunks,
     Gen.hsServerRcv, Gen.hsServerSnd, Gen.hsServerMaxMsg, Gen.hsServerMaxChunks,
     Gen.defaultMaxChunkCount, Gen.defaultMaxMessageSize]
 
 /-- … and reproduces every handshake the generator observed on the real code (sentinel values,
     zeros, the witnesses' configurations, random configurations of the domain) -/
 theorem C06_handshake_rows : ∀ row ∈ Gen.handshakeRows, rowAgrees row = true := by decide +kernel
+
+/-- the client validates and bounds what it adopts (the repair of C13's ack-small-rcvbuf /
+    ack-huge-rcvbuf): an Acknowledge with a buffer below the protocol minimum 8192 is refused, every
+    Acknowledge of the domain is accepted, and the receive limit the client then works with — what
+    `Receive` allocates per frame — is never above the Acknowledge's value nor above the receive
+    buffer of its own (non-zero) Hello -/
+theorem C06_client_adopts_bounded (hello ack : Ack) :
+    (handshakeAccepts ack = true ↔ 8192 ≤ ack.rcv ∧ 8192 ≤ ack.snd) ∧
+    (inDomain ack → handshakeAccepts ack = true) ∧
+    (viewOf hello ack .client).rcv ≤ ack.rcv ∧
+    (hello.rcv ≠ 0 → (viewOf hello ack .client).rcv ≤ hello.rcv) ∧
+    (handshakeAccepts ack = true → 8192 ≤ hello.rcv → 8192 ≤ (viewOf hello ack .client).rcv) := by
+  have hc := clientAdopt_rcv hello ack
+  have hacc : handshakeAccepts ack = true ↔ 8192 ≤ ack.rcv ∧ 8192 ≤ ack.snd := by
+    simp only [handshakeAccepts, minBufSize]
+    exact decide_eq_true_iff
+  refine ⟨hacc, fun h => hacc.mpr ⟨h.1, h.2.2.1⟩, ?_, ?_, ?_⟩
+  · simp only [viewOf, negotiate]; omega
+  · simp only [viewOf, negotiate]; omega
+  · intro h; have := hacc.mp h; simp only [viewOf, negotiate]; omega
 
 /-- whatever the policy, mode and message: every chunk a side writes fits the value it
     took for its own send buffer (C38's statement applied to every chunk of the message) -/
@@ -81,18 +103,20 @@ theorem C06_partial (hello ack : Ack) (a : AlgoParams) (ha : a ∈ Gen.symmetric
   obtain ⟨_, _, hs1, hs2⟩ := hd
   have hfit : ∀ w ∈ wireChunks a m ack n, w ≤ (ack.snd : Int) :=
     C06_chunk_le_own_send_buffer a ha m ack hs1 hs2 n
-  have hview : ∀ s, (viewOf hello ack s).snd = ack.snd ∧ (viewOf hello ack s).rcv = ack.rcv := by
-    intro s; cases s <;> simp [viewOf, negotiate, clientAdopt]
+  have hsnd : ∀ s, (viewOf hello ack s).snd = ack.snd := by
+    intro s; cases s <;> simp [viewOf, negotiate]
   have hwc : ∀ s, wireChunks a m (viewOf hello ack s) n = wireChunks a m ack n := by
-    intro s; simp [wireChunks, maxBodyOf, (hview s).1]
+    intro s; simp [wireChunks, maxBodyOf, hsnd s]
+  have hc := clientAdopt_rcv hello ack
   refine ⟨?_, ?_, fun h => absurd h g3⟩
   · intro w hw
     rw [hwc] at hw
     have := hfit w hw
     cases sender <;> simp [Side.peer, advertised] <;> omega
   · intro w hw
-    rw [(hview _).2]
-    cases sender <;> simp [Side.peer, advertised, maySend] at hw ⊢ <;> omega
+    cases sender
+    · simp [Side.peer, advertised, maySend, viewOf, negotiate] at hw ⊢; omega
+    · simp only [Side.peer, advertised, maySend, viewOf, negotiate] at hw ⊢; omega
 
 /-- (2'): a message within the limits the receiver advertised (0 = no limit), in chunks the
     sender may use, is accepted.  For requests (client sends) there is NO guard left: the
@@ -101,19 +125,21 @@ theorem C06_partial (hello ack : Ack) (a : AlgoParams) (ha : a ∈ Gen.symmetric
     from the Acknowledge, and a receive buffer not above the server's (finding
     client-limits-from-ack / client-recv-direction otherwise). -/
 theorem C06_legal_partial (hello ack : Ack) (a : AlgoParams) (m : Mode) (sender : Side) (n : Nat)
-    (g3 : sender = .server → hello.maxMsg ≠ 0 ∧ hello.maxMsg ≤ (clientAdopt ack).maxMsg ∧
-                             hello.maxChunks ≠ 0 ∧ hello.maxChunks ≤ (clientAdopt ack).maxChunks)
+    (g3 : sender = .server → hello.maxMsg ≠ 0 ∧ hello.maxMsg ≤ (clientAdopt hello ack).maxMsg ∧
+                             hello.maxChunks ≠ 0 ∧ hello.maxChunks ≤ (clientAdopt hello ack).maxChunks)
     (g4 : sender = .server → hello.rcv ≤ ack.rcv) :
     LegalAccepted hello ack a m sender n := by
   intro hw hex
   unfold receive
   apply recvLoop_ok
   · intro b hb
-    have := hw (wireLen a m b) (by simp only [wireChunks, List.mem_map]; exact ⟨b, hb, rfl⟩)
+    have hwb := hw (wireLen a m b) (by simp only [wireChunks, List.mem_map]; exact ⟨b, hb, rfl⟩)
     cases sender
-    · simp [Side.peer, viewOf, negotiate, advertised, maySend] at this ⊢; omega
-    · have := g4 rfl
-      simp [Side.peer, viewOf, negotiate, clientAdopt, advertised, maySend] at * ; omega
+    · simp [Side.peer, viewOf, negotiate, advertised, maySend] at hwb ⊢; omega
+    · have hg := g4 rfl
+      have hc := clientAdopt_rcv hello ack
+      simp [Side.peer, advertised, maySend] at hwb
+      simp only [Side.peer, viewOf, negotiate]; omega
   · intro h0
     simp only [exceeds, chunkCount] at hex
     cases sender
@@ -197,9 +223,9 @@ theorem C06_finding_client_send_direction (hello ack : Ack) (hd : inDomain ack) 
   intro hh
   obtain ⟨_, _, h1, h2⟩ := hd
   have hw := hh.chunkFits ((ack.snd : Int) - 1) (by
-    have : viewOf hello ack .client = clientAdopt ack := rfl
+    have : viewOf hello ack .client = clientAdopt hello ack := rfl
     rw [this]
-    have hv := C06_none_full_chunk (clientAdopt ack) (by simpa [clientAdopt] using h1) (by simpa [clientAdopt] using h2)
+    have hv := C06_none_full_chunk (clientAdopt hello ack) (by simpa [clientAdopt] using h1) (by simpa [clientAdopt] using h2)
     simp only [clientAdopt] at hv ⊢
     rw [hv]; simp)
   simp [Side.peer, advertised] at hw
@@ -220,7 +246,8 @@ theorem C06_finding_client_recv_direction (hello ack : Ack) (a : AlgoParams) (m 
     ¬ Honoured hello ack a m .server n := by
   intro hh
   have := hh.accepts (min ack.snd hello.rcv) (by simp [maySend, advertised, Side.peer])
-  simp [viewOf, negotiate, clientAdopt, Side.peer] at this
+  have hc := clientAdopt_rcv hello ack
+  simp only [viewOf, negotiate, Side.peer] at this
   omega
 
 /-- … at the witness: the server's response chunk of 20024 bytes is legal (≤ 65535 both ways),
@@ -244,11 +271,12 @@ theorem C06_finding_server_ignores_hello_rcv (hello ack : Ack) (hd : inDomain ac
   simp [Side.peer, advertised] at hw
   omega
 
-/-- … at the witness: client advertises rcv 8192, default server, response body 20000;
-    the client (which adopted 65535) even accepts the chunk it said it cannot take -/
+/-- … at the witness: client advertises rcv 8192, default server, response body 20000: the server
+    writes one chunk of 20024 bytes; the client (whose receive limit is now bounded by its own
+    Hello) refuses it and the connection is lost -/
 theorem C06_witness_server_ignores_hello_rcv :
     transfer Gen.symNone .none (viewOf ⟨8192, 65535, 0, 0⟩ defaultServerAck .server)
-      (viewOf ⟨8192, 65535, 0, 0⟩ defaultServerAck .client) 20000 = ([20024], .ok) := by
+      (viewOf ⟨8192, 65535, 0, 0⟩ defaultServerAck .client) 20000 = ([20024], .chunkTooLarge) := by
   decide
 
 /-- FINDING send-limit-client / send-limit-server: whenever the message is over a limit the
@@ -276,11 +304,10 @@ theorem C06_witness_send_limit :
 /-- regression witnesses of the repaired zero-limit defect: with MaxMessageSize 0 the OPN request
     is taken and the channel opens; with MaxChunkCount 0 a three-chunk request is accepted -/
 theorem C06_zero_limit_witnesses (hello : Ack) :
-    openChannel (negotiate hello ⟨65535, 65535, 0, 512⟩) = .ok ∧
+    openChannel (negotiate defaultClientAck ⟨65535, 65535, 0, 512⟩) = .ok ∧
     receive Gen.symNone .none (viewOf hello ⟨8192, 8192, 2097152, 0⟩ .server) [8167, 8167, 3666] = .ok := by
   refine ⟨?_, ?_⟩
-  · show openChannel (negotiate ⟨0, 0, 0, 0⟩ ⟨65535, 65535, 0, 512⟩) = _
-    decide +kernel
+  · decide +kernel
   · show receive Gen.symNone .none ⟨8192, 8192, 2097152, 0⟩ [8167, 8167, 3666] = _
     decide +kernel
 
